@@ -79,12 +79,68 @@ GROUPS = {
     ],
 }
 
+# ---- second batch (notes/R2G.md section 7): strings.  Vocabulary: YV.R2G + YV.R2GStr.
+NATIVE = dict(types={"Value": "xvalue"}, stack="vm", display=True)
+GROUPS2 = {
+    "PureStr.v": [
+        dict(name="check_num_args", file="core.rs", impl=None, fn="check_num_args", display=True),
+        dict(name="validate_integer_x", file="utils.rs", impl=None, fn="validate_integer", **NATIVE),
+        dict(name="try_as_bounded_index_x", file="value.rs", impl="Value", fn="try_as_bounded_index",
+             params={"kind": "msg"}, **NATIVE),
+        dict(name="ObjString_validate_char_boundary", file="object.rs", impl="ObjString",
+             fn="validate_char_boundary", params={"desc": "msg"}),
+        dict(name="string_len", file="core.rs", impl=None, fn="string_len", **NATIVE),
+        dict(name="string_is_alpha", file="core.rs", impl=None, fn="string_is_alpha", **NATIVE),
+        dict(name="string_is_digit", file="core.rs", impl=None, fn="string_is_digit", **NATIVE),
+        dict(name="string_is_hexdigit", file="core.rs", impl=None, fn="string_is_hexdigit", **NATIVE),
+        dict(name="string_count_chars", file="core.rs", impl=None, fn="string_count_chars", **NATIVE),
+        dict(name="string_char_byte_index", file="core.rs", impl=None, fn="string_char_byte_index", **NATIVE),
+        dict(name="string_find", file="core.rs", impl=None, fn="string_find", **NATIVE),
+        dict(name="string_replace", file="core.rs", impl=None, fn="string_replace", **NATIVE),
+        dict(name="string_starts_with", file="core.rs", impl=None, fn="string_starts_with", **NATIVE),
+        dict(name="string_ends_with", file="core.rs", impl=None, fn="string_ends_with", **NATIVE),
+        dict(name="make_bounded_range_x", file="object.rs", impl="ObjRange", fn="make_bounded_range",
+             params={"type_name": "msg"}),
+        dict(name="Vm_string_get_item", file="vm.rs", impl="Vm", fn="string_get_item",
+             types={"Value": "xvalue"}, stack="self", display=True),
+    ],
+    "PureScan.v": [
+        dict(name="is_alpha", file="scanner.rs", impl=None, fn="is_alpha"),
+        dict(name="is_digit", file="scanner.rs", impl=None, fn="is_digit"),
+        dict(name="Scanner_is_at_end", file="scanner.rs", impl="Scanner", fn="is_at_end"),
+        dict(name="Scanner_get_next_char_boundary", file="scanner.rs", impl="Scanner", fn="get_next_char_boundary"),
+        dict(name="Scanner_peek", file="scanner.rs", impl="Scanner", fn="peek"),
+        dict(name="Scanner_peek_next", file="scanner.rs", impl="Scanner", fn="peek_next"),
+        dict(name="Scanner_advance", file="scanner.rs", impl="Scanner", fn="advance"),
+        dict(name="Scanner_match_char", file="scanner.rs", impl="Scanner", fn="match_char"),
+        dict(name="Scanner_skip_whitespace", file="scanner.rs", impl="Scanner", fn="skip_whitespace"),
+        dict(name="Scanner_make_token", file="scanner.rs", impl="Scanner", fn="make_token"),
+        dict(name="Scanner_number", file="scanner.rs", impl="Scanner", fn="number"),
+        dict(name="Scanner_check_keyword", file="scanner.rs", impl="Scanner", fn="check_keyword"),
+        dict(name="Scanner_identifier_type", file="scanner.rs", impl="Scanner", fn="identifier_type"),
+        dict(name="Scanner_identifier", file="scanner.rs", impl="Scanner", fn="identifier"),
+        dict(name="Scanner_binary_token", file="scanner.rs", impl="Scanner", fn="binary_token"),
+        dict(name="Scanner_error_token", file="scanner.rs", impl="Scanner", fn="error_token"),
+    ],
+}
+GROUPS2["PureComp.v"] = [
+    dict(name="Compiler_add_local", file="compiler.rs", impl="Compiler", fn="add_local"),
+    dict(name="Compiler_resolve_local", file="compiler.rs", impl="Compiler", fn="resolve_local"),
+    dict(name="Compiler_add_upvalue", file="compiler.rs", impl="Compiler", fn="add_upvalue"),
+]
+GROUPS2["PureFiber.v"] = [
+    dict(name="ObjFiber_push_exc_handler", file="object.rs", impl="ObjFiber", fn="push_exc_handler",
+         abstract={"self.stack.len": ("self_stack_len", "usize")}),
+    dict(name="ObjFiber_pop_exc_handler", file="object.rs", impl="ObjFiber", fn="pop_exc_handler"),
+]
+GROUPS.update(GROUPS2)
+
 
 def make_gen(fname):
     def gen(man):
         src = r2g.Source(SRC)
         sub = {}
-        text = r2g.translate_group(src, GROUPS[fname], sub)
+        text = r2g.translate_group(src, GROUPS[fname], sub, ext=fname in GROUPS2)
         man.setdefault("r2g", {})[fname] = sub
         bad = [n for n, e in sub.items() if e.get("status") != "translated"]
         if bad:
@@ -97,7 +153,7 @@ def gen_umbrella(man):
     return ("(* GENERATED by translator/translate_r2g.py - do not edit.  Umbrella of the Rust -> Gallina translations;\n"
             "   the definitions live in one file per group so that a function that leaves the supported subset\n"
             "   breaks only the checks that own it. *)\n"
-            + "".join("From YVGen Require Export %s.\n" % f[:-2] for f in GROUPS))
+            + "".join("From YVGen Require Export %s.\n" % f[:-2] for f in GROUPS if f not in GROUPS2))
 
 
 GENERATORS = {f: make_gen(f) for f in GROUPS}
